@@ -262,6 +262,18 @@ func familyStream(weights map[string]int, hostile bool, quickN, thoroughN, lengt
 				if weights["string"] >= 10 && g.chance(0.06) {
 					ops = append(ops, g.counterBoundary(1)...)
 				}
+				if weights["string"] >= 10 && g.chance(0.08) {
+					ops = append(ops, g.lcsMacro(1)...)
+				}
+				if weights["string"] >= 10 && g.chance(0.07) {
+					ops = append(ops, g.floatMacro(1, false)...)
+				}
+				if weights["hash"] >= 10 && g.chance(0.07) {
+					ops = append(ops, g.floatMacro(1, true)...)
+				}
+				if weights["key"] >= 5 && g.chance(0.12) {
+					ops = append(ops, g.sortMacro(1)...)
+				}
 				if weights["hash"] >= 10 && g.chance(0.06) {
 					ops = append(ops, g.hcounterBoundary(1)...)
 				}
